@@ -169,7 +169,8 @@ def run(ck, m):
         ck.ob('C06.c', 'key-record', 'layout', ok, 'key record written %s, read %s' % (kw, rw[:4]), '')
         okv = vw == [8, 'N', 4] and rw[4:6] == vw[:2]
         ck.ob('C06.c', 'value-record', 'layout', okv, 'value record written %s, read %s (+ status not needed by the loader)' % (vw, rw[4:6]), '')
-        uw = [w for w, s, bi in wu]
+        # the update may assemble the tail in a buffer (extend_from_slice) and write that buffer once
+        uw = [w for w, s, bi in wu if w != 'N']
         oku = uw == kw[2:] or uw == [12]
         ck.ob('C06.c', 'in-place-update', 'layout', oku, 'in-place update writes %s = the tail of the key record %s' % (uw, kw[2:]), '')
         mw = [w for w, s, bi in wm]
